@@ -1,4 +1,5 @@
 import HexProofs.Analysis.Dispatch
+import HexProofs.Analysis.AmorphContract
 import HexProofs.Lib.IntInst
 /-
 C16 – Pattern and movement functions are causal and index-consistent (every float carrier `F`).
@@ -8,6 +9,9 @@ clamped at candle 0, missing readings skipped in `cross`, the pattern index norm
 anchored at the index).  All twenty functions are covered, directly and through the `Amorph`
 dispatch `runAnalysis`; the direct `Mov.*` / `Pat.*` forms are the definitional unfoldings of
 `runAnalysis` on the corresponding `Analysis` constructor.
+
+Wrapped form: `wrapped` (one `_calculate_reading` call) and `wrapped_live_eq_batch` (the whole column,
+any append schedule = one batch calculate, through the leaf `Contract` of HexProofs/Framework).
 
 (c) Totality: in the model NO input can make any of the twenty functions raise – neither missing /
 `None` / bool / dict-valued readings nor invalid indices – so nothing has to be excluded: the
@@ -91,6 +95,26 @@ theorem wrapped (ops : Ops F) (ind : Ind F) (a : Analysis) (hk : ind.kind = .amo
     rw [← (causal a).trunc x.cs x.i h0 hi, hv]; rfl
   · rw [← (causal a).latest x.cs x.i h0 hi, hv]
 
+/-- **Wrapped as an indicator: the same column live and in batch.**  For every wrapped function
+`a` (any length / look-back), `Amorph(a)` as a top-level indicator on the base timeframe: any
+construction prefix `init` and any split of the rest of a raw stream into `append` chunks end with
+exactly the candles – prices and both reading dicts, or the same exception – of one batch
+`calculate()` over the whole stream.  Side condition: the readings `a` names must not see the
+indicator's own entry (`Indep`: true of every candle field and of every other indicator's key;
+vacuous for positive / negative and the four patterns). -/
+theorem wrapped_live_eq_batch (a : Analysis) (name : String) (round : Nat)
+    (hind : ∀ nm ∈ names a, Indep F name nm)
+    (init : List (Candle F)) (chunks : List (List (Candle F)))
+    (hp : ∀ c ∈ init ++ chunks.flatten, Plain c) :
+    candlesOf (runIndicator (mkTop (.amorph a) name round) {} init chunks)
+      = candlesOf (runIndicator (mkTop (.amorph a) name round) {} (init ++ chunks.flatten) []) :=
+  amorph_schedule a name round hind init chunks hp
+
+/-- the wrapped function sees the candles only through the prices and the columns it names -/
+theorem wrapped_key_local (a : Analysis) (cs cs' : List (Candle F)) (hs : cs.map strip = cs'.map strip)
+    (hc : ∀ nm ∈ names a, col nm cs = col nm cs') (i : Int) (h0 : 0 ≤ i) (hi : i < cs.length) :
+    runAnalysis a cs i = runAnalysis a cs' i := runAnalysis_congr a cs cs' hs hc i h0 hi
+
 /-! ### the direct forms are instances (definitional unfolding of `runAnalysis`) -/
 
 example (cs : List (Candle F)) (ind : String) (n i : Int) (h0 : 0 ≤ i) (hi : i < cs.length) :
@@ -137,5 +161,15 @@ example : isTrue (runAnalysis (.cross "close" "open" 1) demo 10) = true := by de
 example : isTrue (runAnalysis (.cross "close" "open" 1) (upto demo 10) (-1)) = true := by decide
 example : isFalse (runAnalysis (.crossover "close" "open" 1) demo 10) = true := by decide   -- strict: close = open at candle 9
 example : isTrue (runAnalysis (.cross "close" "open" 3) demo 12) = true := by decide
+
+-- the side conditions of `wrapped_live_eq_batch` are satisfiable: a raw stream, names that are candle fields
+example : ∀ c ∈ demo, Plain c := by decide
+example : ∀ nm ∈ names (.rising "close" 3), Indep Int "RISING" nm := by
+  intro nm h
+  simp only [names, List.mem_singleton] at h
+  subst h
+  exact indep_attr "RISING" "close" noDot_close (by decide)
+example : ∀ nm ∈ names (.hammer (some 3)), Indep Int "HAMMER" nm := by
+  intro nm h; simp [names] at h
 
 end Hex.C16
